@@ -25,6 +25,10 @@ CHECKS = {
                 technique='deterministic simulation: event histories (exhaustive to a depth, seeded walks, concurrent bursts) on the real provider loop under virtual time, step-wise refinement of a reference protocol machine',
                 text='Histories over peer PDUs of every type, partial/continued P-DATA, unrecognised PDUs, FIN, ARTIM expiry, time advance, every legal user primitive and generator primitives, both roles: after every event the wire, indications, state, socket and ARTIM flag must equal R-fsm; concurrent bursts must match some serialisation; at the end peer-close implies idle and closed within ARTIM+1 s.',
                 note='quiescence = 3 select periods without change; deadlines not approached closer than 1 s; sampling beyond the exhaustive depth'),
+    'C12': dict(cat='exploration', ref='6/C12',
+                technique='deterministic simulation with fault injection: structure-aware PDU mutation and random bytes fed to the real provider loop in six protocol states under seeded segmentation, then FIN/RST/silence; crash/hang/orderly-end oracle plus two-branch reaction oracle against R-fsm',
+                text='For Sta2, Sta3, Sta5, Sta6 (both roles), Sta7, Sta8, Sta13 (two routes): every mutation operator instance of DESIGN App. C on rich A-ASSOCIATE-RQ/AC, RJ, P-DATA (echo, multi-PDV store), release and abort PDUs (thorough; seeded third in quick), DIMSE-level garbage, seeded random bytes and bit flips; the provider task must not die, must reach idle with the socket closed within ARTIM+1 s of FIN/RST (or of silence where ARTIM is armed), must have told the user, must emit only well-formed PDUs, and its reaction to an unrecognised/malformed PDU must follow the Evt19 row (or, for a merely malformed one, its own type row).',
+                note='R-codec decides unrecognised/malformed/valid; reaction to valid PDUs and to DIMSE-level garbage is not judged beyond crash/hang/orderly end; sampling'),
 }
 
 
